@@ -28,7 +28,8 @@ SYNTAX_ERRORS = [          # (text of the offending line, fragment expected in t
 def compile_error_cases(rng, count):
     """a valid multi-line program with one offending line: the reported line must be that line"""
     cases = []
-    filler = ["var a%d = %d;", "print(%d + %d);", "fn f%d() { return %d; }", "// comment %d %d", "", "var s%d = \"two\nlines %d\";"]
+    filler = ["var a%d = %d;", "print(%d + %d);", "fn f%d() { return %d; }", "// comment %d %d", "", "var s%d = \"two\nlines %d\";",
+              "var e%d = \"escaped\\nnewline\\x0a%d\\u000a\";", "var i%d = \"${%d}\\n${1}\";"]
     for k in range(count):
         nlines = rng.randint(1, 12)
         lines = []
